@@ -9,13 +9,19 @@ def member(desc, tier, seed):
     return decode.decode_member(desc, tier, seed, props=('C07',), encoders=('COMPLETE','FAST'))
 
 
+def enum(desc, tier, seed):
+    from bounded import enumchecks
+    return enumchecks.activeness_member(desc, tier, seed)
+
+
 def run(tier='quick', seed=0):
     members = corpus(FAMILIES, tier)
     results = harness.run_pool('bounded.drivers.C07', 'member', members, tier, seed)
+    results += harness.run_pool('bounded.drivers.C07', 'enum', members, tier, seed)
     return harness.aggregate(
         results,
         rule='one evaluation = one contract clause on one (graph, encoder, vector); non-trivial = distinct '
              '(graph, encoder, corrected vector) that was decoded',
-        bound=bound_text(FAMILIES) + ' x selection-choice encoders as listed in member()',
+        bound=bound_text(FAMILIES) + ' x selection-choice encoders as listed in member(); every row of the enumeration of valid designs (complete encoder) compared with its decode (create=True/False)',
         assumptions=['reference semantics (bounded/specsem.py) is the statement\'s semantics; validated against the '
                      'documented example of docs/theory.md which is a corpus member'])
